@@ -130,12 +130,26 @@ Definition spec_wire (ty : ptype) (t : target) : wire :=
 
 Definition ptype_tls (ty : ptype) : bool := match ty with THttps => true | _ => false end.
 
+(* what the first hop is told about the target: a proxy asked to tunnel gets the CONNECT authority / SOCKS5
+   address (the client's authority for a CONNECT, host:port with the scheme's default port for a request the
+   proxy forwards itself); an HTTP proxy relaying a plain request gets the request's host in the absolute URI;
+   an origin gets it in the Host field; a direct tunnel is told nothing by the proxy *)
+Definition spec_named (h : hop) (t : target) : str :=
+  match h, t_kind t with
+  | HFail, _ => []
+  | HDirect, Connect => []
+  | HDirect, Plain => t_urlhost t
+  | HProxy _ _, Connect => t_urlhost t
+  | HProxy ty _, Plain => match spec_wire ty t with WAbs => t_urlhost t | _ => spec_target_addr t end
+  end.
+
 Definition spec_route_hop (rules : list rule) (h : hop) (t : target) : outcome :=
   match h with
   | HFail => OFail
   | HDirect => OSent (spec_redirect rules (spec_target_addr t))
                      (match t_kind t with Plain => str_eqb (t_scheme t) (b "https") | Connect => false end) WDirect
-  | HProxy ty hp => OSent (spec_redirect rules hp) (ptype_tls ty) (spec_wire ty t)
+                     (spec_named h t)
+  | HProxy ty hp => OSent (spec_redirect rules hp) (ptype_tls ty) (spec_wire ty t) (spec_named h t)
   end.
 
 Definition spec_route (cfg : config) (rules : list rule) (t : target) : outcome :=
@@ -149,7 +163,7 @@ Definition wire_role (w : wire) : role :=
 Definition first_hop (o : outcome) : option (str * bool * role) :=
   match o with
   | OFail => None
-  | OSent a tls w => Some (a, match wire_role w with RPeer => false | _ => tls end, wire_role w)
+  | OSent a tls w _ => Some (a, match wire_role w with RPeer => false | _ => tls end, wire_role w)
   end.
 
 (* the socket events of one exchange according to the spec: dial attempts (retries of the SAME address) and
@@ -157,9 +171,9 @@ Definition first_hop (o : outcome) : option (str * bool * role) :=
 Definition spec_exchange (cfg : config) (rules : list rule) (t : target) (attempts failures : nat) : list event :=
   match spec_route cfg rules t with
   | OFail => []
-  | OSent a tls w =>
+  | OSent a tls w n =>
       if Nat.ltb failures (effective_attempts attempts)
-      then repeat (EvDial a) (S failures) ++ [EvUse a tls w]
+      then repeat (EvDial a) (S failures) ++ [EvUse a tls w n]
       else repeat (EvDial a) (effective_attempts attempts)
   end.
 
